@@ -12,6 +12,7 @@
 from ..engine.prov import strip_casts, walk_deep, show
 from ..engine.dtable import canon, enumerate_paths, path_local_value
 from ..engine.fold import fold
+from ..engine import panics
 from .c07 import Lin, ptr_elem_size
 from .c12 import mentions
 
@@ -195,6 +196,33 @@ def check(ck, prog):
         st = deref_stores(ctx, fn)
         st_in = [x for x in st if x[0] in cyc]
         ck.ob("C08.6", f"{short}|one-store-per-round", len(st) == 1 and len(st_in) == 1, fn=lf, detail=f"stores through raw pointers: {len(st)} ({len(st_in)} inside the loop); the tiling argument needs exactly one, inside the loop")
+        # the same loop written with an element index instead of moving cursors (forward leaves only):
+        #   i = 0; while i < n { *dest.add(i) = *src.add(i) | fill; i += 1 }
+        if direction > 0 and len(st) == 1 and len(st_in) == 1:
+            sb, si, s0 = st_in[0]
+            dptr = strip_casts(ctx.prov.operand({"k": "copy", "p": {"l": s0["dst"]["l"]}}, (sb, si)))
+            val = ctx.prov.rvalue(s0["rv"], (sb, si))
+            if isinstance(dptr, tuple) and dptr[0] == "call" and (dptr[1] or "").endswith(PTR_ADD) and canon(dptr[2][0]) == "p1" and isinstance(strip_casts(dptr[2][1]), tuple) and strip_casts(dptr[2][1])[0] == "var":
+                iv = strip_casts(dptr[2][1])
+                defs = [strip_casts(d) for d in ctx.prov.expand(iv)]
+                starts0 = sum(1 for d in defs if fold(d) == 0) == 1
+                incs = [d for d in defs if isinstance(d, tuple) and d[0] == "bin" and d[1] in ("Add", "AddWithOverflow", "AddUnchecked") and fold(d[3]) == 1 and canon(strip_casts(d[2])) == canon(iv)]
+                counter = len(defs) == 2 and starts0 and len(incs) == 1
+                guard = any(f[0] == "cmp" and f[1] == "Lt" and canon(strip_casts(f[2])) == canon(iv) and canon(strip_casts(f[3])) == f"p{fn['argc']}" for f in panics.dominating_facts(ctx, sb))
+                # the counter is bumped after the store, inside the loop, exactly once per round
+                inc_bbs = [b["id"] for b in fn["blocks"] if b["id"] in cyc for st2 in b["stmts"] if st2["k"] == "assign" and st2["dst"]["l"] == iv[1] and not st2["dst"].get("p")]
+                after = len(inc_bbs) == 1 and cfg.dominates(sb, inc_bbs[0])
+                other_ptr = [bb for bb, t in ptr_calls(ctx, PTR_ADD + PTR_SUB + PTR_OTHER_ARITH) if not (canon(ctx.args(bb)[1]) == canon(iv) and t["callee"].endswith(PTR_ADD) and canon(ctx.args(bb)[0]) in ("p1", "p2"))]
+                if nptr == 2:
+                    v = strip_casts(val)
+                    value_ok = isinstance(v, tuple) and v[0] == "deref" and isinstance(strip_casts(v[1]), tuple) and strip_casts(v[1])[0] == "call" and (strip_casts(v[1])[1] or "").endswith(PTR_ADD) and \
+                        canon(strip_casts(v[1])[2][0]) == "p2" and canon(strip_casts(v[1])[2][1]) == canon(iv)
+                else:
+                    value_ok = canon(strip_casts(val)) == "p2"
+                ck.ob("C08.6", f"{short}|index-form|counter-runs-0..n-by-one", counter and guard and after and not other_ptr, fn=lf,
+                      detail=f"element-index loop: the index must start at 0, be tested `< n` before every store and be increased by exactly one after it (counter={counter}, guard={guard}, bumped-after-store={after}, other pointer arithmetic={len(other_ptr)})")
+                ck.ob("C08.6", f"{short}|index-form|stores-element-i-of-the-source-or-the-fill-value", value_ok, fn=lf, detail=f"dest[i] must receive src[i] (or the fill byte); it receives {show(val)}")
+                continue
         steps = [(bb, t) for bb, t in ptr_calls(ctx, PTR_ADD + PTR_SUB) if bb in cyc]
         outside = [(bb, t) for bb, t in ptr_calls(ctx, PTR_ADD + PTR_SUB) if bb not in cyc]
         exotic = ptr_calls(ctx, PTR_OTHER_ARITH)
